@@ -467,13 +467,16 @@ func c16Pairs(c *Ctx, pr *PropertyRun, prop string, keep func(what string) bool)
 	su := p.MustFunc(r, pkgInternal, "(*Status).UnmarshalText")
 	if sm != nil && su != nil && (keep == nil || keep("status line")) {
 		r.Role("codec-pair")
-		eu := hasUse(calleeUses(c, sm, 1), "fmt.Sprintf")
+		// the encoder, interpreted (E2): whatever builds the text — Sprintf,
+		// concatenation, appends to a byte buffer — the result is
+		// "HTTP/1.1 " + decimal(code) + " " + reason phrase
+		encOK, encDetail := statusEncoderShape(c, sm)
 		du := hasUse(calleeUses(c, su, 1), "strings.SplitN")
 		at := hasUse(calleeUses(c, su, 1), "strconv.Atoi")
-		ok := eu != nil && du != nil && at != nil && len(eu.consts) > 0 && len(du.consts) > 0
+		ok := encOK && du != nil && at != nil && len(du.consts) > 0
+		_ = encDetail
 		if ok {
-			f := eu.consts[0]
-			ok = strings.Count(f, " ") == 2 && strings.Count(f, "%") == 2 && strings.HasPrefix(f, "HTTP/") && du.consts[0] == " "
+			ok = du.consts[0] == " "
 			if n, isC := constInt(du.site.Common().Args[2]); !isC || n != 3 {
 				ok = false
 			}
@@ -856,3 +859,51 @@ func c16Reject(c *Ctx, pr *PropertyRun) {
 }
 
 var _ = constant.MakeBool
+
+// statusEncoderShape interprets (*Status).MarshalText over a symbolic status:
+// for every path the text is "HTTP/1.1 " + decimal(Code) + " " + T, where T
+// is the status's own text or, when that is empty, http.StatusText(Code).
+func statusEncoderShape(c *Ctx, sm *ssa.Function) (bool, string) {
+	allOK := true
+	detail := ""
+	spec := DTXSpec{Name: "Status.MarshalText", Entry: sm,
+		Sym: SymSpec{NonNil: func(string) bool { return true }},
+		Args: func(in *Interp) []Val {
+			return []Val{in.symOf(sm.Params[0].Type(), "s")}
+		},
+		Observe: func(in *Interp, res Val, pan *panicOutcome) string {
+			if pan != nil {
+				return "panic"
+			}
+			t, ok := res.(Tuple)
+			if !ok || len(t.E) != 2 || !isNilVal(t.E[1]) {
+				return "error"
+			}
+			return keyOf(t.E[0])
+		},
+		Check: func(env *OracleEnv, obs *Observation) (bool, string, bool) {
+			in := obs.In
+			var reason Val = SymStr{Key: "s.Text"}
+			if env.Eq(S("s.Text"), K("")) {
+				reason = SymStr{Key: "StatusText(s.Code)"}
+			}
+			want := in.concatText(in.concatText(in.concatText(kStr("HTTP/1.1 "), in.itoaText(SymInt{"s.Code"})), kStr(" ")), reason)
+			got := "?"
+			if obs.Panic == nil {
+				if t, ok := obs.Ret.(Tuple); ok && len(t.E) == 2 && isNilVal(t.E[1]) {
+					got = keyOf(t.E[0])
+				}
+			}
+			if got != keyOf(want) {
+				allOK = false
+				detail = "the encoder yields " + got + ", not " + keyOf(want)
+				return false, keyOf(want), true
+			}
+			return true, "", true
+		}}
+	res := runDTX(c, spec)
+	if len(res.Undecided) > 0 || res.Runs == 0 {
+		return false, "the status encoder could not be interpreted"
+	}
+	return allOK && len(res.Mismatches) == 0, detail
+}
